@@ -298,5 +298,5 @@ def generate(repo: pathlib.Path) -> str:  # noqa: C901  (one linear recipe)
                   "`MovingWindow.at(int)` has no range test of its own (only the one of `to_internal_index`)")
         out.append("/-- `MovingWindow.at` reads the raw slot, also inside a gap. -/\ndef atNanOnGap : Bool := false\n")
 
-    return ("import Frequenz.Model.Prelude\n\nnamespace Extracted.RingBufferQuery\n\n" + "\n".join(out)
+    return ("import Frequenz.Model.Prelude\n\nset_option linter.unusedVariables false\n\nnamespace Extracted.RingBufferQuery\n\n" + "\n".join(out)
             + "\nend Extracted.RingBufferQuery\n")
